@@ -134,7 +134,11 @@ def run(ctx):
             for req, what in ((0, "root"), (1, "D"), (2, "D/pkg"), (4, "a file")):
                 conds.append(xh.Cond(f"annotate --recursive {what} flags=(submodules={f1},meson={f2})", "C03.py", "_rec", {"flags": [f1, f2, False], "requests": [req], "filenames": [0, 1, 9] if tier == "quick" else [0, 1, 9, 11, 16], "carve": carve}, timeout=tmo, twin="_rec_reach"))
     conds.append(xh.Cond("VCSStrategyGit: the NUL-separated answers of git (ignored paths, submodule paths) are read back exactly, for names with blanks, non-ASCII, line feed, leading dash, directories", "C03.py", "_git", {}, timeout=tmo, twin="_git_reach"))
+    conds.append(xh.Cond("Project.from_directory: the nested REUSE.toml files that take part are those of the directories that are walked (include options, VCS answers)", "C03.py", "_tomls", {}, timeout=tmo, twin="_tomls_reach"))
+    conds.append(xh.Cond("lint-file: a named file is examined however its path and the root are spelled (relative, '..', absolute)", "C03.py", "_subset", {}, timeout=tmo, twin="_subset_reach"))
     ctx.functions_encoded = [
+        "reuse.covered_files.iter_files / is_path_ignored with subset_files over a path algebra (resolve() collapses '..', absolute() does not)",
+        "reuse.project.Project.from_directory / find_global_licensing / _global_licensing_from_found, NestedReuseTOML.find_reuse_tomls (discovery walk; ReuseTOML.from_file stubbed)",
         "reuse.vcs.VCSStrategyGit._find_all_ignored_files / _find_submodules / is_ignored / is_submodule (execute_command replaced by arbitrary listed answers)",
         "reuse.cli.annotate.all_paths + Project.all_files (recursive expansion over the same model)",
         "reuse.covered_files._IGNORE_FILE_PATTERNS / _IGNORE_DIR_PATTERNS / _IGNORE_MESON_PARENT_DIR_PATTERNS (compiled patterns -> z3)",
@@ -144,6 +148,8 @@ def run(ctx):
     ctx.bounds = {
         "names (RZ3)": "unbounded: every name without '/' and NUL, any length; LF-free and LF-containing separately",
         "is_path_ignored": "27 names on both sides of each rule x 6 kinds (file, empty, dir, symlink to file/dir, stat error) x parent in {src, subprojects} x VCS {none, ignored?, submodule?} x 3 include flags x subset {none, in, out}",
+        "lint-file spelling": "5 spellings of the root x 6 spellings of the named file (+ a second named file with '..'), working directory = project root, no symlinks",
+        "REUSE.toml discovery": "root/{REUSE.toml, top.py, D/pkg/{REUSE.toml, h.py}} with D from the same list; pkg ignored? submodule?; VCS or none; both include options",
         "annotate -r": "the same tree; the requested path is the root, D, D/pkg, top.py or G",
         "iter_files": "root/{top.py, D/} with D in {src, LICENSES, .git, subprojects, .reuse}, D symlink? ignored? submodule?; D/{G, pkg/h.py} with G from a name list x {file, empty, symlink} x ignored?; all 8 flag combinations",
     }
@@ -159,6 +165,10 @@ def run(ctx):
         if c.func == "_ign":
             key = "license-text-workaround" if ex["name"].startswith(("CAL-1.0", "SHL-2.1")) else f"decision:{ex['name']}:{ex['kind']}:{ex['subset']}"
             return key, f"is_path_ignored says {ex['got']} but the statement says {ex['expected']} for {ex}", {"harness": "C03.py::_ign", "explain": ex}
+        if c.func == "_subset":
+            return f"subset-spelling:{ex['root']}:{ex['named_files']}", f"cwd {ex['cwd']}, root {ex['root']!r}, named files {ex['named_files']}: examined {ex['examined']}, expected {ex['expected']}", {"harness": "C03.py::_subset", "explain": ex}
+        if c.func == "_tomls":
+            return f"toml-discovery:{ex['dir']}:{ex['include_submodules']}:{ex['include_meson_subprojects']}", f"Project.from_directory finds REUSE.toml files {ex['reuse_tomls']} (expected {ex['expected_reuse_tomls']}) and covers {ex['covered_files']} (expected {ex['expected_covered_files']}) for {ex}", {"harness": "C03.py::_tomls", "explain": ex}
         if c.func == "_git":
             return f"git-answer:{ex.get('path')}", f"git's answer {ex.get('git_lists') or ex.get('gitmodules_lists')} is read back wrongly for {ex.get('path')!r}: {ex}", {"harness": "C03.py::_git", "explain": ex}
         if c.func == "_rec":
